@@ -576,6 +576,6 @@ def check(run):
         if "inject" not in decided:
             check_inject(run, f, cfg)
         check_constructors(run, f, cfg)
-    run.assumptions.append("how arbitrary template text is split into tokens is decided under C16")
+    run.delegate("C16", "which characters of a template form a placeholder mark, and which lie inside quoted text, is decided by the tokenizer that C16 decides")
     run.assumptions.append("not decided: inject_parameters(build(s)) == to_string(s) for every statement (depends on re-lexing every literal form); "
                            "out-of-range $0 / $9 lookups panic - the property does not speak about them")
